@@ -1,0 +1,55 @@
+//go:build verif
+
+// Machine-checked contracts for package atomicfile (comment-only; see /verif/DESIGN.md).
+//
+// Crash points are the gaps between file-system calls. The ghost variable `missing` records
+// "the destination existed when Commit was entered and does not exist now"; it must be false
+// after every file-system call event, which is what "never no file where one existed" means
+// for a process killed between two calls.
+
+package atomicfile
+
+//@ func (*atomicFile).Commit
+//@   property C13
+//@   ghost existed bool
+//@   ghost missing bool = false
+//@   ghost renamed bool = false
+//@   ghost closedOK bool = false
+//@   ghost tmpName string = ""
+//@   on call (*os.File).Name(_) ret (n): tmpName = n
+//@   on call (*os.File).Close(_) ret (e): closedOK = (e == nil)
+//@   on call os.Remove(n) ret (e): missing = missing || (e == nil && n == f.name && existed); \
+//@        assert @destination_never_missing_between_calls !missing
+//@   on call os.Rename(a, b) ret (e): renamed = renamed || (e == nil && b == f.name && a == tmpName && closedOK); \
+//@        missing = missing && !(e == nil && b == f.name); assert @destination_never_missing_after_rename !missing
+//@   ensures @success_means_complete_file_renamed_into_place ret0 == nil ==> renamed
+//@   ensures @handle_released_on_success ret0 == nil ==> f.File == nil
+//@   modifies f.File
+//@
+//@ func (*atomicFile).Close
+//@   property C13
+//@   ghost tmpName string = ""
+//@   ghost removedTemp bool = false
+//@   on call (*os.File).Name(_) ret (n): tmpName = n
+//@   on call os.Remove(n) ret (e): removedTemp = removedTemp || n == tmpName
+//@   ensures @temp_file_unlinked old(f.File) != nil ==> removedTemp
+//@   ensures @handle_released f.File == nil
+//@   ensures @never_fails ret0 == nil
+//@   modifies f.File
+//@
+//@ func WriteFile
+//@   property C13
+//@   ghost open bool = false
+//@   ghost committed bool = false
+//@   on call WriteAny(_) ret (f, e): open = (e == nil)
+//@   on call invoke AtomicFile.Commit(_) ret (e): committed = (e == nil)
+//@   on call invoke AtomicFile.Close(_) ret (e): open = false
+//@   ensures @no_temp_file_left !open
+//@   ensures @success_means_committed ret0 == nil ==> committed
+//@
+//@ func WriteInPlace
+//@   property C13
+//@   ghost open bool = false
+//@   on call New(_) ret (f, e): open = (e == nil)
+//@   on call invoke AtomicFile.Close(_) ret (e): open = false
+//@   ensures @no_temp_file_left_on_error ret1 != nil ==> !open
